@@ -29,9 +29,13 @@ Base == {
   Mapc("map:ls:0=z,2=b,8=h", "int", << <<IntV(0), SB("z")>>, <<IntV(2), SB("b")>>, <<IntV(8), SB("h")>> >>),   \* map[userLevel]string, uint8
   Mapc("map:bs:t=yes", "bool", << <<Bool(TRUE), SB("yes")>> >>),
   Mapc("map:fs:1.5=h", "float", << <<Num(96), SB("h")>> >>),
-  [id |-> "struct:person", kind |-> "struct"] }
+  [id |-> "struct:person", kind |-> "struct"],
+  (* a struct with embedded structs: type embOuter struct { Base; *hiddenBase; Own string } - the fields of the embedded structs are
+     promoted (ID, Title from the exported Base; Code through a pointer to an unexported type) *)
+  [id |-> "struct:emb", kind |-> "fstruct", fields |-> << <<"Own", SB("own")>>, <<"ID", IntV(7)>>, <<"Title", SB("ti")>>, <<"Code", IntV(3)>> >>,
+   structs |-> {"Base"}] }
 Ptrs == {[d EXCEPT !.id = "ptr:" \o d.id] : d \in {b \in Base : b.id \in {"slice:int:4,5,6", "slice:string:a,b", "map:ss:a=x,b=y",
-                                                                              "map:is:1=a,2=b", "map:ns:1=a,3=c", "struct:person", "array3", "slice:int:"}}}
+                                                                              "map:is:1=a,2=b", "map:ns:1=a,3=c", "struct:person", "array3", "slice:int:", "struct:emb"}}}
 Nils == {[id |-> x, kind |-> "nil"] : x \in {"nil", "nilptr:slice", "nilptr:map", "nilptr:person", "slice:nilint", "map:nilss", "nilptr:int"}}
 Scalars == {[id |-> x, kind |-> "scalar"] : x \in {"num:int:192", "num:float64:96", "str:abc", "bool:t", "stringer:abc", "func", "chan"}}
 Containers == Base \cup Ptrs \cup Nils \cup Scalars
@@ -40,7 +44,7 @@ Desc(id) == CHOOSE d \in Containers : d.id = id
 HostKey(id) == [t |-> "go", id |-> id]
 Keys == << SB("a"), SB("zz"), SB("1"), SB(""), IntV(0), IntV(1), IntV(2), IntV(3), IntV(8), IntV(0 - 1), Num(96), Bool(TRUE), Bool(FALSE), Null,
            SB("Name"), SB("Age"), SB("Tags"), SB("Inner"), SB("secret"), SB("Greet"), SB("Nothing"), SB("Two"), SB("Sum"), SB("Rename"),
-           SB("Self"), SB("hidden"), SB("Nope"), SB("k"), IntV(1000000), SB("Wait"), SB("Level"), IntV(300),
+           SB("Self"), SB("hidden"), SB("Nope"), SB("k"), IntV(1000000), SB("Wait"), SB("Level"), IntV(300), SB("Own"), SB("ID"), SB("Title"), SB("Code"), SB("Base"), SB("hiddenBase"),
            (* host numbers far outside the window: no container has them as a key or index; the lookup is an error, never a panic *)
            HostKey("huge:1e19"), HostKey("huge:-1e19"), HostKey("huge:1e300"), HostKey("huge:inf"), HostKey("huge:-inf"), HostKey("huge:nan"),
            HostKey("big:uint64:max"), HostKey("big:int64:min"), HostKey("big:int64:max"), SB("1e30"), SB("Inf"), SB("-1e30"), SB("NaN") >>
@@ -94,6 +98,13 @@ GetAttrRef(d, key, args) ==
               ELSE IF nm = "Inner" THEN Either                  \* a nil *person: some representation of nil
               ELSE IF nm \in {"secret", "hidden", "Nope", "a", "zz", "1", "", "k"} THEN ErrR
               ELSE MethodRef(nm, args)
+    [] d.kind = "fstruct" ->
+         IF key.t # "str" \/ ~IsPrintable(key.s) THEN ErrR
+         ELSE LET nm == B2S(key.s) IN
+              IF \E q \in 1..Len(d.fields) : d.fields[q][1] = nm
+              THEN (IF args = <<>> THEN Elem(d.fields[CHOOSE q \in 1..Len(d.fields) : d.fields[q][1] = nm][2]) ELSE Either)
+              ELSE IF nm \in d.structs THEN Either               \* the embedded struct itself: a struct value, not a template value
+              ELSE ErrR
     [] OTHER -> ErrR                                             \* nil containers, scalars, functions, channels
 
 ElemValues(d) == CASE d.kind = "seq" -> {d.els[q] : q \in 1..Len(d.els)}
